@@ -8,7 +8,7 @@
  * Ops shared with the model driver drv_deflate (lean/Cjet/Drv/Deflate.lean), same output format:
  *
  *   frags <n1,n2,..>            non-final compressed fragments of these sizes through binary_frame_received_comp
- *                               -> frags <off:len:cap:avail|skip>... contig=<0|1>
+ *                               -> frags <off:len:cap:avail|skip>... contig=<0|1>      (skip = empty fragment)
  *                                  off/len = the memcpy range, cap = size word of the buffer at the copy,
  *                                  avail = strm->avail_in after the copy; contig = the buffer holds the
  *                                  concatenation of all fragments at offset 4
@@ -40,7 +40,10 @@
  *        mutation  flip:<bit> | trunc:<n> | ins:<pos>:<byte> | set:<pos>:<byte>   (positions modulo the length)
  *                               -> mut ret=.. n=.. same=<0|1> clen=<n>
  *   comp <setup> <hexpayload>   websocket_compress alone into an exactly 2*len byte buffer
- *                               -> comp ret=<n> out=<hex> tail=<0|1>      (tail: zlib's output ended 00 00 ff ff)
+ *                               -> comp full=<hex> ret=<n> out=<hex> tail=<0|1>
+ *                                  full = everything zlib emits for the message (measured on a deflateCopy of the
+ *                                  real stream before the call), tail = the 4 bytes removed were 00 00 ff ff.
+ *                                  The model answers `comp <len> <fullhex>` with the same ret/out/tail (or WILD).
  */
 #include <ctype.h>
 #include <stdarg.h>
@@ -560,6 +563,21 @@ static void op_comp(char **w, int nw)
 	P("comp");
 	if (!setup(w[1])) { P(" noaccept\n"); del_ws(); return; }
 	size_t n; uint8_t *payload = unhex(w[2], &n);
+	/* what zlib emits for this message, measured on a copy of the real stream */
+	{
+		z_stream cp;
+		memset(&cp, 0, sizeof cp);
+		P(" full=");
+		if (deflateCopy(&cp, *(ws->extension_compression.strm_comp)) == Z_OK) {
+			size_t bound = deflateBound(&cp, n) + 64;
+			uint8_t *tb = malloc(bound);
+			cp.next_in = payload; cp.avail_in = (uInt)n; cp.next_out = tb; cp.avail_out = (uInt)bound;
+			deflate(&cp, ws->extension_compression.server_no_context_takeover ? Z_FULL_FLUSH : Z_SYNC_FLUSH);
+			puthex(tb, bound - cp.avail_out);
+			deflateEnd(&cp);
+			free(tb);
+		} else P("?");
+	}
 	uint8_t *src = malloc(n ? n : 1); memcpy(src, payload, n);
 	uint8_t *dest = malloc(n * 2 ? n * 2 : 1);
 	int r = websocket_compress(ws, dest, src, n);
